@@ -730,6 +730,14 @@ func (c *EvalCtx) evalCall(n *ast.CallExpr) Val {
 			if b.Typ == nil && a.Typ != nil {
 				b = c.coerce(b, a.Typ)
 			}
+			if a.Typ == nil && b.Typ == nil {
+				// both branches untyped constants: typed by the context
+				av, bv := a, b
+				return Val{Lazy: func(typ types.Type) Val {
+					x1, y1 := c.coerce(av, typ), c.coerce(bv, typ)
+					return scalar(Ite(cnd, x1.One(), y1.One()), typ)
+				}}
+			}
 			a, b = c.defaultType(a), c.defaultType(b)
 			out := make([]Term, len(a.T))
 			for i := range a.T {
